@@ -62,8 +62,12 @@ Proof. exact typed_read_str. Qed.
    back with the same keys in the same order and every value intact up to trailing blanks. Stores built by any
    operation list from the empty store consist of accepted entries. *)
 Theorem C16_survives_roundtrip : forall prelude s, prelude_ok gen_params prelude = true -> all_accepted gen_params s ->
-  exists s', roundtrip gen_params prelude s = Some s' /\ same_up_to_blanks s s'.
+  exists s', roundtrip gen_params prelude s = Some s' /\ same_up_to_blanks s s' /\ all_accepted gen_params s'.
 Proof. intros prelude s. apply survives_roundtrip. exact gen_params_sound. Qed.
+(* ... so operations and round trips can be interleaved: after a round trip the store again consists of accepted
+   entries (and has the same keys, hence no duplicates), and stays so under every further operation list *)
+Theorem C16_accepted_preserved : forall ops s, all_accepted gen_params s -> all_accepted gen_params (fst (run gen_params s ops)).
+Proof. intros ops s. apply run_accepted. Qed.
 Theorem C16_roundtrip_lookup : forall s s' k, same_up_to_blanks s s' ->
   map fst s' = map fst s /\
   match get k s with
@@ -131,6 +135,7 @@ Print Assumptions C16_print_parse_int.
 Print Assumptions C16_typed_read.
 Print Assumptions C16_typed_read_string.
 Print Assumptions C16_survives_roundtrip.
+Print Assumptions C16_accepted_preserved.
 Print Assumptions C16_roundtrip_lookup.
 Print Assumptions C16_reachable_accepted.
 Print Assumptions C16_survives_roundtrip_refuted_quote.
